@@ -12,19 +12,22 @@ let margin = ref infinity
 let note a b = if a <> b && Float.is_finite a && Float.is_finite b then begin
     let m = Float.abs (a -. b) /. Float.max (Float.max (Float.abs a) (Float.abs b)) 1e-300 in
     if m < !margin then margin := m end
+(* perturbation id (argv 1): 0 = none.  k > 0: the result of every multiplication and division (and every component returned by
+   solve, and the norm of a search direction) is multiplied by 1 + j*2^-53 with j in {-1, 0, 0, 0, 1} drawn from a generator
+   seeded by k: a different rounding of the same computation.  LAPACK / the vectorized library and this model differ in the
+   last bits; a step that lands exactly on a bound in one and one ulp inside it in the other is a legitimate difference,
+   which the check recognises by finding a rounding under which the model reproduces the implementation. *)
+let pert = if Array.length Sys.argv > 1 then int_of_string Sys.argv.(1) else 0
+let pstate = ref 0
+let pnext () = pstate := (!pstate * 1103515245 + 12345) land 0x3fffffff;
+  (match (!pstate lsr 12) mod 5 with 0 -> -1.0 | 4 -> 1.0 | _ -> 0.0) *. 1.1102230246251565e-16
+(* ids 1..20: light (only solve and the direction norm are perturbed); ids above 20: heavy (also every multiplication and division) *)
+let rnd v = if pert <= 20 then v else v *. (1.0 +. pnext ())
 let ops : float ops =
-  { o0 = 0.0; o1 = 1.0; oadd = ( +. ); osub = ( -. ); omul = ( *. ); odiv = ( /. ); oneg = (fun x -> -. x);
+  { o0 = 0.0; o1 = 1.0; oadd = ( +. ); osub = ( -. ); omul = (fun a b -> rnd (a *. b)); odiv = (fun a b -> rnd (a /. b)); oneg = (fun x -> -. x);
     oeqb = (fun a b -> a = b); oltb = (fun a b -> note a b; a < b); oleb = (fun a b -> note a b; a <= b) }
 
 let floats s = List.map float_of_string (split_ws s)
-(* perturbation id (argv 1): 0 = none; k > 0 multiplies each component returned by solve by 1 + j*2^-53, j in -2..2 drawn from a
-   generator seeded by k.  LAPACK's result differs from this elimination in the last bits; a step that lands on a bound in one
-   and one ulp inside it in the other is a legitimate difference, which the check recognises by finding a perturbation under
-   which the model reproduces the implementation *)
-let pert = if Array.length Sys.argv > 1 then int_of_string Sys.argv.(1) else 0
-let pstate = ref 0
-let pnext () = pstate := (!pstate * 1103515245 + 12345) land 0x3fffffff; float_of_int (((!pstate lsr 12) mod 5) - 2) *. 1.1102230246251565e-16
-
 let solve (m : float list list) (g : float list) : float list =
   let n = List.length g in
   let a = Array.of_list (List.map Array.of_list m) and b = Array.of_list g in
@@ -45,7 +48,15 @@ let solve (m : float list list) (g : float list) : float list =
       b.(c) <- !s /. a.(c).(c)
     done
   with _ -> ());
-  if pert = 0 then Array.to_list b else List.map (fun v -> v *. (1.0 +. pnext ())) (Array.to_list b)
+  if pert = 0 then Array.to_list b
+  else if pert <= 20 then List.map (fun v -> v *. (1.0 +. pnext ())) (Array.to_list b)
+  else begin
+    (* heavy: noise of one ulp of the LARGEST component on every component, so that a component that is zero up to rounding
+       (its sign decides whether a variable is released) can come out with either sign, as it does between two solvers *)
+    let mx = Array.fold_left (fun a v -> Float.max a (Float.abs v)) 0.0 b in
+    let amp = float_of_int (1 lsl (pert mod 10)) in      (* 1 .. 512 ulp of the largest component: the error of an elimination grows with the condition number *)
+    List.map (fun v -> v +. mx *. amp *. pnext ()) (Array.to_list b)
+  end
 
 let () =
   try while true do
